@@ -126,7 +126,7 @@ def run(ctx):
                 and fld(E[2][0][1], BF)
             ctx.check(ok, "all-asset", name + "|query", ctx.loc(f), "element i = order_books[i].%s()" % target,
                       "Market::%s element is %s" % (name, render(E)[:160]))
-    ctx.check(n_cl >= 11 and n_ix >= 15, "all-asset", "census", "-", "%d all-asset closures, %d book accesses" % (n_cl, n_ix))
+    ctx.check(n_cl >= 11 and n_ix >= 11, "all-asset", "census", "-", "%d all-asset closures, %d book accesses" % (n_cl, n_ix))
 
     # ---------------------------------------------------------------- fan-out
     for name, target in FAN_OUT.items():
@@ -157,6 +157,13 @@ def run(ctx):
         if len(cs) == 1:
             a = cs[0].args
             ok = any(x[0] == "index" and x[2][0] == "param" and x[2][1] == 2 for x in walk(a[1])) and "start_time" in render(a[0]) and "trading" in render(a[2])
+    if not ok and len(cl) == 1:
+        # `tick_size.map(|t| OrderBook::new(start_time, t, trading))`: array::map keeps positions
+        mp = [c for c in nq.calls("map") if c.args and c.args[0][0] == "param" and c.args[0][2] == "tick_size" and "array" in c.resolved]
+        cs = cl[0][0].calls("new")
+        if len(mp) == 1 and len(cs) == 1:
+            a = cs[0].args
+            ok = a[1][0] == "param" and a[1][1] == 2 and "start_time" in render(a[0]) and "trading" in render(a[2])
     ctx.check(ok, "fan-out", "new", ctx.loc(new), "Market::new builds book i with (start_time, tick_size[i], trading)", "Market::new does not build book i from tick_size[i]")
 
     # ---------------------------------------------------------------- MarketEnv
